@@ -158,7 +158,7 @@ func (h *Header) TakeFrom(src []byte) ([]byte, error) {
 		return nil, err
 	}
 
-	wantedSize := int(h.archiveCount * archiveInfoListSize)
+	wantedSize := int(h.archiveCount) * archiveInfoListSize
 	if len(src) < wantedSize {
 		return nil, &WantLargerBufferError{WantedBufSize: metaSize + wantedSize}
 	}
